@@ -324,12 +324,101 @@ struct System {
     }
 };
 
+// ---------------------------------------------------------------------------------------------
+// Handles stored INSIDE managed objects (linked list): `head = head->next` assigns from a handle that lives in the
+// object the left-hand side is about to release.  Enumerated family (E3): chain length, which nodes are also held
+// from outside, copy / move / converting-style assignment; oracle: use_count of every live node == number of handles
+// pointing to it (head, predecessor's next, external holders), destructor log exact, ASan.
+struct LNode : public tlx::ReferenceCounter {
+    int id;
+    tlx::CountingPtr<LNode> next;
+    static int* dtor_log;  // [id] -> destructor calls
+    explicit LNode(int i) : id(i) {}
+    ~LNode() { dtor_log[id]++; }
+};
+int* LNode::dtor_log = nullptr;
+
+static void list_case(uint64_t cid) {
+    int L = 1 + (int)(cid % 4);
+    uint64_t q = cid / 4;
+    unsigned mask = (unsigned)(q % 16);
+    q /= 16;
+    int variant = (int)(q % 3);  // 0 copy-assign, 1 move-assign, 2 copy via temporary (x = P(x->next))
+    if (mask >> L) return;       // holders beyond the chain: duplicate of a smaller mask
+    std::string rp = vh::fmt("list:%llu", (unsigned long long)cid);
+    static const char* vn[] = {"list.copy_assign_from_member", "list.move_assign_from_member", "list.assign_from_temporary"};
+    vh::at(vn[variant], rp);
+    int log[4] = {0, 0, 0, 0};
+    LNode::dtor_log = log;
+    typedef tlx::CountingPtr<LNode> LP;
+    {
+        LNode* raw[4] = {nullptr, nullptr, nullptr, nullptr};
+        LP ext[4];
+        LP head;
+        {
+            LP prev;
+            for (int i = L - 1; i >= 0; --i) {
+                LP n(new LNode(i));
+                raw[i] = n.get();
+                n->next = prev;
+                prev = n;
+                if (mask & (1u << i)) ext[i] = n;
+            }
+            head = prev;
+        }
+        int pos = 0;  // head points to node pos
+        for (;;) {
+            // check: nodes < pos are alive iff held externally (or reachable from an alive predecessor)
+            bool alive[4];
+            for (int i = 0; i < L; ++i) {
+                bool a = (mask & (1u << i)) != 0 || (i >= pos && pos < L);
+                if (!a && i > 0 && i < pos) a = false;
+                alive[i] = a;
+            }
+            // reachability: node i (i<pos) alive iff external holder on i, or predecessor i-1 alive
+            for (int i = 0; i < L; ++i) {
+                bool a = (mask & (1u << i)) != 0;
+                if (i == pos && pos < L) a = true;
+                if (i > 0 && alive[i - 1]) a = true;
+                alive[i] = a;
+            }
+            for (int i = 0; i < L; ++i) {
+                if (alive[i] && log[i] != 0) vh::fail_here("destroyed-while-referenced", vh::fmt("%s: node %d destroyed while reachable (L=%d mask=%u pos=%d)", rp.c_str(), i, L, mask, pos));
+                if (!alive[i] && log[i] != 1)
+                    vh::fail_here(log[i] == 0 ? "not-destroyed-at-zero" : "destroyed-twice", vh::fmt("%s: node %d destroyed %d times (L=%d mask=%u pos=%d)", rp.c_str(), i, log[i], L, mask, pos));
+                if (alive[i]) {
+                    int want = ((mask >> i) & 1) + (i == pos ? 1 : 0) + (i > 0 && alive[i - 1] ? 1 : 0);
+                    if ((int)raw[i]->reference_count() != want)
+                        vh::fail_here("use_count", vh::fmt("%s: node %d has count %zu, %d handle(s) point to it (L=%d mask=%u pos=%d)", rp.c_str(), i, raw[i]->reference_count(), want, L, mask, pos));
+                }
+            }
+            if (pos >= L) break;
+            if (variant == 0) head = head->next;
+            else if (variant == 1) {
+                // moving out of a member of a node that stays alive would change the list; only when head is the sole owner
+                if (alive[pos] && ((mask >> pos) & 1 || (pos > 0 && alive[pos - 1]))) head = head->next;
+                else head = std::move(head->next);
+            } else head = LP(head->next);
+            ++pos;
+        }
+    }
+    for (int i = 0; i < L; ++i)
+        if (log[i] != 1) vh::fail_here("destroyed-count-at-end", vh::fmt("%s: node %d destroyed %d times", rp.c_str(), i, log[i]));
+    vh::stat_add("list_cases");
+    vh::stat_add("states");
+    vh::stat_add("transitions", L);
+}
+
 int main(int argc, char** argv) {
     vh::init(argc, argv);
     System<tlx::CountingPtrDefaultDeleter> s1;
     System<tlx::CountingPtrNoOperationDeleter> s2;
     if (vh::args().has_replay) {
         return vh::replay_one([&](const std::string& r) {
+            if (r.compare(0, 5, "list:") == 0) {
+                list_case(strtoull(r.c_str() + 5, nullptr, 10));
+                return;
+            }
             size_t bar = r.find('|');
             std::string cfg = r.substr(0, bar), h = r.substr(bar + 1);
             if (cfg == s1.name()) vhist::replay_config(s1, h);
@@ -344,5 +433,6 @@ int main(int argc, char** argv) {
         vhist::run_config(s1, opt);
     }
     if (1 % n == sh) vhist::run_config(s2, opt);
+    vh::run_cases(4 * 16 * 3, [](uint64_t c) { list_case(c); });
     return vh::finish();
 }
